@@ -1,9 +1,9 @@
-\* C12 quick: the code as pinned; 186 offsets x 47 values x 4 bases, all B for each
+\* C12 quick: the code as pinned; 186 offsets x 47 values x 3 bases, all B for each
 CONSTANTS
   FixedWindowRaw = FALSE
   FixedWatchdogRestart = FALSE
   ValMode = 1
-  NBases = 4
+  NBases = 3
 SPECIFICATION Spec
 INVARIANTS TypeOK ReadBack NonAliasing HiddenFrame ReadPurity PathsAgree ChannelIndependent
 CHECK_DEADLOCK FALSE
